@@ -24,7 +24,7 @@ ROOT = os.path.dirname(os.path.abspath(__file__))
 HARNESS = os.path.join(ROOT, "harness")
 BIN = os.path.join(ROOT, ".bin")
 WORK = os.path.join(ROOT, "work")
-REPLAYS = os.path.join(ROOT, "replays")
+REPLAYS = os.environ.get("VERIF_REPLAYS") or os.path.join(ROOT, "replays")
 EVID = os.path.join(ROOT, "evidence")
 NCPU = os.cpu_count() or 4
 
